@@ -94,7 +94,8 @@ def build_harness(ctx, faketime=False):
             tags = "verif,faketime"
         if os.path.exists(out):
             os.remove(out)          # never run a stale binary
-        rc, so, se = sh(["go", "build", "-tags", tags, "-o", out, "."], cwd=hdir, env=env, timeout=1500)
+        cover = ["-cover", "-coverpkg=vharness,github.com/diiyw/nodis/..."] if os.environ.get("VERIF_COVER") else []   # bin/coverage.py only
+        rc, so, se = sh(["go", "build", *cover, "-tags", tags, "-o", out, "."], cwd=hdir, env=env, timeout=1500)
     if rc != 0:
         ctx.log("HARNESS BUILD FAILED\n" + se[-4000:])
         raise SystemExit(harness_error(ctx, "go build of the harness against /repo failed:\n" + se[-2000:]))
